@@ -134,3 +134,32 @@ func probeHdrEh() (bool, string) {
 	}
 	return false, ""
 }
+
+// probeBlLag: the smallest history with lagging binary linking where VerifyDualProof accepts a tree that contradicts
+// the trusted chain. BlTxID of txs 1..5 = 0,1,1,2,4; the tree of tx 4 (size 2) holds the Alh of another tx 2' as
+// leaf 2. A client trusting (3, Alh3) verifies tx 2 through the linear chain (2 >= BlTxID of 3), advances 3 -> 4
+// (source 3 > target.BlTxID 2: TargetBlTxAlh = Alh(2') is only checked against the target's own BlRoot, and no linear
+// proof 2 -> 3 exists in the proof format), then 4 -> 5, and is finally served tx 2' for tx 2 out of the tree.
+func probeBlLag() (bool, string) {
+	e := buildEvil([]uint64{0, 1, 1, 2, 4}, []equivocation{{p: 2, from: 4}})
+	defer e.close()
+	s := &session{e: e, state: 3, stateAlh: e.tx(3).alh, accepted: map[uint64]H{3: e.tx(3).alh}}
+	st, first, err := s.request(2, false, false)
+	if err != nil || !st.accepted || first != e.tx(2).alh {
+		return false, ""
+	}
+	for _, t := range []uint64{4, 5} {
+		st, _, err := s.request(t, false, false)
+		if err != nil || !st.accepted {
+			return false, ""
+		}
+	}
+	st, again, err := s.request(2, false, false)
+	if err != nil || !st.accepted {
+		return false, ""
+	}
+	if again == e.tx(2).altAlh && again != first {
+		return true, "BlTxID 0,1,1,2,4; tree leaf 2 = Alh of another tx 2' from tx 4 on: client state (3,Alh3) verifies tx 2, then VerifyDualProof(3->4) [source 3 > target.BlTxID 2] = true, (4->5) = true, (2'->5) = true: tx 2 verified twice with different content"
+	}
+	return false, ""
+}
